@@ -38,7 +38,8 @@ static uint8_t alpha_byte(Rng &r, int alphabet) {
 Bytes gen_bytes(Rng &r, const GenKnobs &k, int maxlen) {
     size_t len;
     unsigned c = (unsigned)r.below(100);
-    if (k.long_strings == 2 && c < 4) len = 32760 + r.below(16);
+    if (k.long_strings == 3 && c < 3) len = 65530 + r.below(12);            // around 2^16: beyond every Binson width boundary, a classic 16-bit counter trap
+    else if (k.long_strings >= 2 && c < 4) len = 32760 + r.below(16);
     else if (k.long_strings >= 1 && c < 12) len = 120 + r.below(16);
     else if (c < 30) len = 0;
     else len = r.below((uint64_t)maxlen + 1);
